@@ -23,60 +23,102 @@ Proof. exact inhabitsb_sound. Qed.
 
 (** Generic, unbounded over instances: if the checker accepts descriptor D against schema S then the JSON
     emitted (unset and None fields dropped, ndarrays flattened) for EVERY value inhabiting D is valid. *)
-Theorem C09_compatible_sound : forall env defs n D S,
-    compat env defs n D S = true -> forall v, Inh false env D v -> Valid defs S (emit v).
+Theorem C09_compatible_sound : forall z env defs n D S,
+    compat z env defs n D S = true -> forall v, Inh z env D v -> Valid defs S (emit v).
 Proof. exact compat_sound. Qed.
 
-Theorem C09_compatible_never_rejected : forall env defs n m D S v,
-    compat env defs n D S = true -> Inh false env D v -> validates m defs S (emit v) <> Ok false.
+Theorem C09_compatible_never_rejected : forall z env defs n m D S v,
+    compat z env defs n D S = true -> Inh z env D v -> validates m defs S (emit v) <> Ok false.
 Proof. exact compat_never_rejected. Qed.
 
 (** Per model, re-established on every run against the regenerated schemas and descriptors. *)
 Theorem C09_Molecule_conforms :
   forall v, Inh false env (TModel "Molecule") v -> Valid defs_Molecule S_Molecule (emit v).
-Proof. apply (compat_sound env defs_Molecule 64). vm_compute. reflexivity. Qed.
+Proof. apply (compat_sound false env defs_Molecule 64). vm_compute. reflexivity. Qed.
 
 Theorem C09_Provenance_conforms :
   forall v, Inh false env (TModel "Provenance") v -> Valid defs_Provenance S_Provenance (emit v).
-Proof. apply (compat_sound env defs_Provenance 64). vm_compute. reflexivity. Qed.
+Proof. apply (compat_sound false env defs_Provenance 64). vm_compute. reflexivity. Qed.
 
 Theorem C09_AtomicResultProperties_conforms :
   forall v, Inh false env (TModel "AtomicResultProperties") v ->
             Valid defs_AtomicResultProperties S_AtomicResultProperties (emit v).
-Proof. apply (compat_sound env defs_AtomicResultProperties 64). vm_compute. reflexivity. Qed.
+Proof. apply (compat_sound false env defs_AtomicResultProperties 64). vm_compute. reflexivity. Qed.
 
 (** BasisSet and the two models that embed it conform to their schemas with every "uniqueItems" removed ... *)
 Theorem C09_BasisSet_conforms_modulo_uniqueItems :
   forall v, Inh false env (TModel "BasisSet") v ->
             Valid (strip_defs defs_BasisSet) (strip_unique S_BasisSet) (emit v).
-Proof. apply (compat_sound env (strip_defs defs_BasisSet) 64). vm_compute. reflexivity. Qed.
+Proof. apply (compat_sound false env (strip_defs defs_BasisSet) 64). vm_compute. reflexivity. Qed.
 
 Theorem C09_AtomicInput_conforms_modulo_uniqueItems :
   forall v, Inh false env (TModel "AtomicInput") v ->
             Valid (strip_defs defs_AtomicInput) (strip_unique S_AtomicInput) (emit v).
-Proof. apply (compat_sound env (strip_defs defs_AtomicInput) 64). vm_compute. reflexivity. Qed.
+Proof. apply (compat_sound false env (strip_defs defs_AtomicInput) 64). vm_compute. reflexivity. Qed.
 
 Theorem C09_AtomicResult_conforms_modulo_uniqueItems :
   forall v, Inh false env (TModel "AtomicResult") v ->
             Valid (strip_defs defs_AtomicResult) (strip_unique S_AtomicResult) (emit v).
-Proof. apply (compat_sound env (strip_defs defs_AtomicResult) 64). vm_compute. reflexivity. Qed.
+Proof. apply (compat_sound false env (strip_defs defs_AtomicResult) 64). vm_compute. reflexivity. Qed.
 
-(** ... and to the schemas exactly as exported whenever the four List fields that carry "uniqueItems"
-    (ElectronShell/ECPPotential.angular_momentum, BasisCenter.electron_shells/ecp_potentials) hold pairwise
-    different items ([uniq_env] declares exactly those fields duplicate-free) ... *)
+(** Removing every "uniqueItems" only weakens a schema (so conformance to the exported schema implies the
+    "modulo" statements above). *)
+Theorem C09_strip_unique_weakens : forall defs S j, Valid defs S j -> Valid (strip_defs defs) (strip_unique S) j.
+Proof. exact strip_unique_weakens. Qed.
+
+(** [env_u]: the descriptors with exactly the four List fields that carry "uniqueItems"
+    (ElectronShell/ECPPotential.angular_momentum, BasisCenter.electron_shells/ecp_potentials) declared duplicate-free. *)
 Definition env_u : env_t := uniq_env basis_unique_sites env.
 
-Theorem C09_BasisSet_conforms_when_duplicate_free :
-  forall v, Inh false env_u (TModel "BasisSet") v -> Valid defs_BasisSet S_BasisSet (emit v).
-Proof. apply (compat_sound env_u defs_BasisSet 64). vm_compute. reflexivity. Qed.
+(** Generic converse at the uniqueItems sites: if [enf] accepts (D, S) then validity of an inhabitant's JSON forces
+    the listed fields to hold pairwise different items. *)
+Theorem C09_duplicate_free_enforced : forall sites env defs n D S v,
+    enf sites env defs n D S = true -> Inh false env D v -> Valid defs S (emit v) ->
+    Inh false (uniq_env sites env) D v.
+Proof. exact enf_sound. Qed.
 
-Theorem C09_AtomicInput_conforms_when_duplicate_free :
-  forall v, Inh false env_u (TModel "AtomicInput") v -> Valid defs_AtomicInput S_AtomicInput (emit v).
-Proof. apply (compat_sound env_u defs_AtomicInput 64). vm_compute. reflexivity. Qed.
+(** Exact characterisation, for every instance: its JSON is valid against the schema exactly as exported iff its four
+    uniqueItems-carrying lists are duplicate-free. *)
+Theorem C09_BasisSet_valid_iff_duplicate_free :
+  forall v, Inh false env (TModel "BasisSet") v ->
+            (Valid defs_BasisSet S_BasisSet (emit v) <-> Inh false env_u (TModel "BasisSet") v).
+Proof.
+  intros v H. split.
+  - apply (enf_sound basis_unique_sites env defs_BasisSet 64); [vm_compute; reflexivity|exact H].
+  - apply (compat_sound false env_u defs_BasisSet 64). vm_compute. reflexivity.
+Qed.
 
-Theorem C09_AtomicResult_conforms_when_duplicate_free :
-  forall v, Inh false env_u (TModel "AtomicResult") v -> Valid defs_AtomicResult S_AtomicResult (emit v).
-Proof. apply (compat_sound env_u defs_AtomicResult 64). vm_compute. reflexivity. Qed.
+Theorem C09_AtomicInput_valid_iff_duplicate_free :
+  forall v, Inh false env (TModel "AtomicInput") v ->
+            (Valid defs_AtomicInput S_AtomicInput (emit v) <-> Inh false env_u (TModel "AtomicInput") v).
+Proof.
+  intros v H. split.
+  - apply (enf_sound basis_unique_sites env defs_AtomicInput 64); [vm_compute; reflexivity|exact H].
+  - apply (compat_sound false env_u defs_AtomicInput 64). vm_compute. reflexivity.
+Qed.
+
+Theorem C09_AtomicResult_valid_iff_duplicate_free :
+  forall v, Inh false env (TModel "AtomicResult") v ->
+            (Valid defs_AtomicResult S_AtomicResult (emit v) <-> Inh false env_u (TModel "AtomicResult") v).
+Proof.
+  intros v H. split.
+  - apply (enf_sound basis_unique_sites env defs_AtomicResult 64); [vm_compute; reflexivity|exact H].
+  - apply (compat_sound false env_u defs_AtomicResult 64). vm_compute. reflexivity.
+Qed.
+
+(** Where the checker fails, it names the sites: [incompat] is empty exactly when [compat] accepts, and for BasisSet
+    it lists exactly the four uniqueItems keywords (schema paths; '#X' = through $ref X). *)
+Theorem C09_incompat_sites_exact : forall z env defs n p D S,
+    incompat z env defs n p D S = [] <-> compat z env defs n D S = true.
+Proof. exact incompat_nil_iff. Qed.
+
+Theorem C09_BasisSet_incompat_sites :
+  incompat false env defs_BasisSet 64 [] (TModel "BasisSet") S_BasisSet =
+  [ ["center_data"; "additionalProperties"; "#BasisCenter"; "electron_shells"; "items"; "#ElectronShell"; "angular_momentum"; "uniqueItems"];
+    ["center_data"; "additionalProperties"; "#BasisCenter"; "electron_shells"; "uniqueItems"];
+    ["center_data"; "additionalProperties"; "#BasisCenter"; "ecp_potentials"; "items"; "#ECPPotential"; "angular_momentum"; "uniqueItems"];
+    ["center_data"; "additionalProperties"; "#BasisCenter"; "ecp_potentials"; "uniqueItems"] ].
+Proof. vm_compute. reflexivity. Qed.
 
 (** ... but NOT in general (known finding C09-uniqueitems): the List-typed fields carry
     "uniqueItems" in the schema but nothing makes the model refuse repeated entries.  Witnesses: a center
@@ -100,6 +142,40 @@ Proof.
     try (apply (inhabitsb_sound 64); vm_compute; reflexivity);
     apply (validates_complete 64); vm_compute; reflexivity.
 Qed.
+
+(** ** ndarray fields and 0-d arrays.  In the generated descriptors an ndarray field is [TArrS] when one of its validators
+    (read from the source on every run) reshapes it or takes its len(), and plain [TArr] otherwise; under [Inh true] a plain
+    [TArr] may hold the 0-d array np.asarray(scalar), which is emitted as a bare scalar.  The fields that are still plain: *)
+Theorem C09_unguarded_array_fields :
+  plain_array_fields env =
+  [ ("Molecule", "atom_labels"); ("Molecule", "atomic_numbers"); ("Molecule", "mass_numbers"); ("Molecule", "fragments");
+    ("WavefunctionProperties", "localized_fock_a"); ("WavefunctionProperties", "localized_fock_b") ].
+Proof. vm_compute. reflexivity. Qed.
+
+(** With 0-d arrays admitted wherever no validator excludes them, the checker fails at exactly those fields ... *)
+Theorem C09_Molecule_0d_sites :
+  incompat true env defs_Molecule 64 [] (TModel "Molecule") S_Molecule =
+  [ ["atom_labels"; "<0-d array as scalar>"; "type"]; ["atomic_numbers"; "<0-d array as scalar>"; "type"];
+    ["mass_numbers"; "<0-d array as scalar>"; "type"]; ["fragments"; "items"; "<0-d array as scalar>"; "type"] ].
+Proof. vm_compute. reflexivity. Qed.
+
+(** ... and every instance whose arrays at those fields have at least one dimension conforms ([env_s]: those fields
+    declared never 0-d; all other ndarray fields are covered by their validators; a 0-d return_result is a valid number). *)
+Definition env_s : env_t := shape_env (plain_array_fields env) env.
+
+Theorem C09_Molecule_conforms_0d_exact :
+  forall v, Inh true env_s (TModel "Molecule") v -> Valid defs_Molecule S_Molecule (emit v).
+Proof. apply (compat_sound true env_s defs_Molecule 64). vm_compute. reflexivity. Qed.
+
+Theorem C09_AtomicResultProperties_conforms_0d_exact :
+  forall v, Inh true env (TModel "AtomicResultProperties") v ->
+            Valid defs_AtomicResultProperties S_AtomicResultProperties (emit v).
+Proof. apply (compat_sound true env defs_AtomicResultProperties 64). vm_compute. reflexivity. Qed.
+
+Theorem C09_AtomicResult_conforms_0d_exact :
+  forall v, Inh true (uniq_env basis_unique_sites env_s) (TModel "AtomicResult") v ->
+            Valid defs_AtomicResult S_AtomicResult (emit v).
+Proof. apply (compat_sound true (uniq_env basis_unique_sites env_s) defs_AtomicResult 64). vm_compute. reflexivity. Qed.
 
 (** A second finding (C09-scalar-array-0d): a scalar given to an ndarray field that has no shape validator is kept
     as a 0-d array and emitted as a bare number, which the schema ("type": "array") rejects.  [Inh true] admits
@@ -212,10 +288,19 @@ Print Assumptions C09_AtomicResultProperties_conforms.
 Print Assumptions C09_BasisSet_conforms_modulo_uniqueItems.
 Print Assumptions C09_AtomicInput_conforms_modulo_uniqueItems.
 Print Assumptions C09_AtomicResult_conforms_modulo_uniqueItems.
-Print Assumptions C09_BasisSet_conforms_when_duplicate_free.
-Print Assumptions C09_AtomicInput_conforms_when_duplicate_free.
-Print Assumptions C09_AtomicResult_conforms_when_duplicate_free.
+Print Assumptions C09_strip_unique_weakens.
+Print Assumptions C09_duplicate_free_enforced.
+Print Assumptions C09_BasisSet_valid_iff_duplicate_free.
+Print Assumptions C09_AtomicInput_valid_iff_duplicate_free.
+Print Assumptions C09_AtomicResult_valid_iff_duplicate_free.
+Print Assumptions C09_incompat_sites_exact.
+Print Assumptions C09_BasisSet_incompat_sites.
 Print Assumptions C09_BasisSet_conforms_refuted.
+Print Assumptions C09_unguarded_array_fields.
+Print Assumptions C09_Molecule_0d_sites.
+Print Assumptions C09_Molecule_conforms_0d_exact.
+Print Assumptions C09_AtomicResultProperties_conforms_0d_exact.
+Print Assumptions C09_AtomicResult_conforms_0d_exact.
 Print Assumptions C09_scalar_in_array_field_refuted.
 Print Assumptions C09_fragments_cover.
 Print Assumptions C09_separators_roundtrip.
